@@ -38,6 +38,79 @@ theorem disp_setDisp_other (cp : CP) (i j : Nat) (d : Disp) (h : i ≠ j) :
     (cp.setDisp i d).disp j = cp.disp j := by
   rw [disp_setDisp]; simp [h]
 
+/-! ## the fit check of `StartDispatching` (repair 91eb1bb3): `handleLaunch` is the pinned
+`handleLaunchOld`, or it only raises the terminal fault "oversize" -/
+
+/-- the state after `log.Panicf("… cannot dispatch kernel …")`: nothing changed but the fault -/
+def CP.rejected (cp : CP) : CP := { cp with fault := some "oversize" }
+
+theorem handleLaunch_cases (cp : CP) :
+    handleLaunch cp = handleLaunchOld cp ∨
+    (handleLaunch cp = (cp.rejected, false) ∧
+      ∃ k rest i, cp.drvIn = k :: rest ∧ findAvailable cp.disps = some i ∧ launchFits cp.pool k = false) := by
+  unfold handleLaunch handleLaunchOld
+  cases hdr : cp.drvIn with
+  | nil => exact Or.inl rfl
+  | cons k rest =>
+    cases hfa : findAvailable cp.disps with
+    | none => exact Or.inl rfl
+    | some i =>
+      cases hl : launchFits cp.pool k with
+      | true => left; simp [hl]
+      | false => right; exact ⟨by simp [CP.rejected, hl, hdr], k, rest, i, rfl, rfl, hl⟩
+
+/-- a launch whose first work-group passes the check is started exactly as before the repair -/
+theorem handleLaunch_of_fits (cp : CP) (h : ∀ k rest, cp.drvIn = k :: rest → launchFits cp.pool k = true) :
+    handleLaunch cp = handleLaunchOld cp := by
+  rcases handleLaunch_cases cp with e | ⟨_, k, rest, _, hd, _, hl⟩
+  · exact e
+  · rw [h k rest hd] at hl; cases hl
+
+/-- proof pattern for every invariant: it is kept by the pinned `handleLaunchOld` and by raising the
+    fault alone -/
+theorem handleLaunch_ind {P : CP → Prop} (cp : CP) (hold : P (handleLaunchOld cp).1) (hrej : P cp.rejected) :
+    P (handleLaunch cp).1 := by
+  rcases handleLaunch_cases cp with e | ⟨e, _⟩
+  · rw [e]; exact hold
+  · rw [e]; exact hrej
+
+/-- the fault after `handleLaunch`: unchanged or "oversize" -/
+theorem handleLaunch_fault (cp : CP) :
+    (handleLaunch cp).1.fault = cp.fault ∨ (handleLaunch cp).1.fault = some "oversize" := by
+  rcases handleLaunch_cases cp with e | ⟨e, _⟩
+  · left; rw [e]; unfold handleLaunchOld
+    cases cp.drvIn with
+    | nil => rfl
+    | cons k rest =>
+      cases findAvailable cp.disps with
+      | none => rfl
+      | some i => rfl
+  · right; rw [e]; rfl
+
+/-- a Go panic ends the tick: on the state left by a rejection the second `Handle` of the tick (which
+    the model applies unconditionally) changes nothing -/
+theorem handleLaunch_fault_idem (cp : CP) (h : (handleLaunch cp).1.fault = some "oversize")
+    (hnf : cp.fault = none) : handleLaunch (handleLaunch cp).1 = handleLaunch cp := by
+  rcases handleLaunch_cases cp with e | ⟨e, k, rest, i, hd, hfa, hl⟩
+  · exfalso
+    have : (handleLaunchOld cp).1.fault = cp.fault := by
+      unfold handleLaunchOld
+      cases cp.drvIn with
+      | nil => rfl
+      | cons k rest =>
+        cases findAvailable cp.disps with
+        | none => rfl
+        | some i => rfl
+    rw [e, this, hnf] at h; cases h
+  · rw [e]
+    show handleLaunch cp.rejected = (cp.rejected, false)
+    unfold handleLaunch
+    have h1 : cp.rejected.drvIn = k :: rest := hd
+    have h2 : findAvailable cp.rejected.disps = some i := hfa
+    have h3 : launchFits cp.rejected.pool k = false := hl
+    rw [h1]; simp only [h2, h3]
+    simp [CP.rejected, hd]
+
 theorem PoolInv_set (caps : List (List Nat)) (pool : List CU) (c : Nat) (cu' : CU)
     (h : PoolInv caps pool) (hcu : c < pool.length → Inv (caps.getD c []) cu') :
     PoolInv caps (pool.set c cu') := by
